@@ -1,1 +1,153 @@
-(* Front/ParseProofs.v -- stub, to be filled *)
+(* Front/ParseProofs.v -- facts about the tokenizer model's failure modes (for C14) and parse-after-print lemmas
+   for expression sub-languages of the parser model (for C07). *)
+From Coq Require Import String.
+From A1 Require Import Front.Lex Front.Parse.
+Local Open Scope N_scope.
+
+(* ---------- tokenizer: which panics exist ---------- *)
+
+Definition lex_panic_class (m : mode) (p : N) : Prop :=
+  p = P_OTHER \/ (p = P_ARITH /\ overflow_checks m = true).
+
+Lemma nest_incr_cases : forall m n,
+  (exists z, nest_incr m n = Ok z) \/ (nest_incr m n = Panic P_ARITH /\ overflow_checks m = true).
+Proof.
+  intros m n. unfold nest_incr. destruct (n =? I32_MAX)%Z.
+  - destruct (overflow_checks m) eqn:E; [right; split; reflexivity | left; eexists; reflexivity].
+  - left; eexists; reflexivity.
+Qed.
+
+Lemma step_fail : forall m last l c prev n ch pk p,
+  step m last l c prev n ch pk = Fail p -> lex_panic_class m p.
+Proof.
+  intros m last l c prev n ch pk p. unfold step, lex_panic_class.
+  destruct (nest_incr_cases m n) as [[z Hz] | [Hz Ho]]; rewrite Hz;
+    repeat match goal with
+           | |- context [if ?b then _ else _] => destruct b
+           | |- context [let (_, _) := ?x in _] => destruct x
+           end; intros H; inversion H; subst; auto.
+Qed.
+
+Lemma emit_panic : forall out r p, emit out r = Panic p -> r = Panic p.
+Proof. intros out [[[a b] c] | e | q] p H; simpl in H; congruence. Qed.
+
+Lemma emit_err : forall out r e, emit out r = Err e -> r = Err e.
+Proof. intros out [[[a b] c] | e' | q] e H; simpl in H; congruence. Qed.
+
+Lemma line_loop_outcomes : forall m last l n cs c prev nest,
+  (length cs <= n)%nat ->
+  (forall p, line_loop m last l c prev nest cs = Panic p -> lex_panic_class m p) /\
+  (forall e, line_loop m last l c prev nest cs <> Err e).
+Proof.
+  intros m last l n. induction n as [|n IH]; intros cs c prev nest Hlen.
+  - destruct cs; [|simpl in Hlen; lia]. simpl. split; [intros p H; discriminate | intros e H; discriminate].
+  - destruct cs as [|ch rest]; [simpl; split; [intros p H; discriminate | intros e H; discriminate]|].
+    simpl in Hlen. cbn [line_loop].
+    destruct (step m last l c prev nest ch (hd_error rest)) as [sk pv nl out | | q] eqn:Hs.
+    + destruct sk.
+      * destruct rest as [|x rest'].
+        { split; [intros p H; apply emit_panic in H; discriminate | intros e H; apply emit_err in H; discriminate]. }
+        assert (Hl : (length rest' <= n)%nat) by (simpl in Hlen; lia).
+        destruct (IH rest' (c + 2) pv nl Hl) as [IP IE].
+        split; [intros p H; apply emit_panic in H; eauto | intros e H; apply emit_err in H; eapply IE; eauto].
+      * assert (Hl : (length rest <= n)%nat) by lia.
+        destruct (IH rest (c + 1) pv nl Hl) as [IP IE].
+        split; [intros p H; apply emit_panic in H; eauto | intros e H; apply emit_err in H; eapply IE; eauto].
+    + split; [intros p H; discriminate | intros e H; discriminate].
+    + split; [intros p H; inversion H; subst; eapply step_fail; eauto | intros e H; discriminate].
+Qed.
+
+Lemma lines_loop_outcomes : forall m count ls l prev nest,
+  (forall p, lines_loop m count l prev nest ls = Panic p -> lex_panic_class m p) /\
+  (forall e, lines_loop m count l prev nest ls <> Err e).
+Proof.
+  intros m count ls. induction ls as [|ln ls IH]; intros l prev nest.
+  - simpl. split; [intros p H; discriminate | intros e H; discriminate].
+  - cbn [lines_loop].
+    destruct (line_loop_outcomes m (l =? count - 1) l (length ln) ln 0 prev nest (le_n _)) as [LP LE].
+    destruct (line_loop m (l =? count - 1) l 0 prev nest ln) as [[[pv nl] out] | e | q] eqn:Hl.
+    + destruct (IH (l + 1) None nl) as [IP IE].
+      split; [intros p H; apply emit_panic in H; eauto | intros e H; apply emit_err in H; eapply IE; eauto].
+    + exfalso. eapply LE. reflexivity.
+    + split; [intros p H; inversion H; subst; eauto | intros e H; discriminate].
+Qed.
+
+(* Tokenizer::parse never returns an error value, and panics only with the explicit panic! of the unclosed
+   comment block (P_OTHER) or, in a build with overflow checks, the i32 overflow of nest_lvl after 2^31 - 1
+   unclosed "/*" (P_ARITH) *)
+Theorem tokenize_outcomes : forall m s,
+  (forall p, tokenize m s = Panic p -> lex_panic_class m p) /\ (forall e, tokenize m s <> Err e).
+Proof.
+  intros m s. unfold tokenize.
+  destruct (lines_loop_outcomes m (N.of_nat (length (lines_of s))) (lines_of s) 0 None 0%Z) as [LP LE].
+  destruct (lines_loop m (N.of_nat (length (lines_of s))) 0 None 0%Z (lines_of s)) as [[[pv nl] out] | e | q] eqn:H.
+  - split; [intros p Hp; discriminate | intros e He; discriminate].
+  - exfalso. eapply LE. reflexivity.
+  - split; [intros p Hp; inversion Hp; subst; eauto | intros e He; discriminate].
+Qed.
+
+
+(* ---------- parse-after-print: tags ---------- *)
+From A1 Require Import Front.Print.
+
+Lemma numeral_head : forall s n, parse_u64 s = Some n -> exists c r, s = c :: r /\ c <= 57.
+Proof.
+  intros s n H. destruct s as [|c r]; [discriminate|]. exists c, r. split; [reflexivity|].
+  unfold parse_u64, strip_plus in H.
+  destruct (c =? 43) eqn:Hc; [apply N.eqb_eq in Hc; lia|].
+  cbn [digits_val] in H.
+  destruct (is_ascii_digit c) eqn:Hd; [|discriminate].
+  unfold is_ascii_digit in Hd. apply andb_true_iff in Hd. destruct Hd as [_ Hd]. apply N.leb_le in Hd. exact Hd.
+Qed.
+
+Lemma numeral_not_keyword : forall s n k kw, parse_u64 s = Some n -> 65 <= k ->
+  eq_ignore_case s (k :: kw) = false.
+Proof.
+  intros s n k kw H Hk. destruct (numeral_head s n H) as [c [r [-> Hc]]].
+  cbn [eq_ignore_case]. apply andb_false_iff. left. apply N.eqb_neq.
+  unfold to_ascii_lower.
+  assert (E1 : (65 <=? c) = false) by (apply N.leb_gt; lia). rewrite E1. cbn [andb].
+  destruct ((65 <=? k) && (k <=? 90)); lia.
+Qed.
+
+Theorem read_tag_print : forall t num rest,
+  parse_u64 num = Some (tag_number t) ->
+  read_tag (print_tag t num ++ rest) = POk (t, rest).
+Proof.
+  intros t num rest H. destruct t as [n|n|n|n]; cbn [tag_number] in H.
+  - cbn [print_tag app]. unfold read_tag. cbn [next_or_err pbind].
+    replace (eq_text_ic (T (KW "UNIVERSAL")) (KW "UNIVERSAL")) with true by (vm_compute; reflexivity).
+    cbn [next_or_err pbind]. unfold parse_tag_number, T. cbn [tok_text]. rewrite H. reflexivity.
+  - cbn [print_tag app]. unfold read_tag. cbn [next_or_err pbind].
+    replace (eq_text_ic (T (KW "APPLICATION")) (KW "UNIVERSAL")) with false by (vm_compute; reflexivity).
+    replace (eq_text_ic (T (KW "APPLICATION")) (KW "APPLICATION")) with true by (vm_compute; reflexivity).
+    cbn [next_or_err pbind]. unfold parse_tag_number, T. cbn [tok_text]. rewrite H. reflexivity.
+  - cbn [print_tag app]. unfold read_tag. cbn [next_or_err pbind].
+    assert (E : forall k kw, 65 <= k -> eq_text_ic (T num) (k :: kw) = false).
+    { intros k kw Hk. unfold eq_text_ic, T. eapply numeral_not_keyword; eauto. }
+    replace (KW "UNIVERSAL") with (85 :: s2n "NIVERSAL") by (vm_compute; reflexivity).
+    replace (KW "APPLICATION") with (65 :: s2n "PPLICATION") by (vm_compute; reflexivity).
+    replace (KW "PRIVATE") with (80 :: s2n "RIVATE") by (vm_compute; reflexivity).
+    rewrite !E by lia. unfold T at 1. cbn [is_text]. unfold parse_tag_number, T. cbn [tok_text]. rewrite H. reflexivity.
+  - cbn [print_tag app]. unfold read_tag. cbn [next_or_err pbind].
+    replace (eq_text_ic (T (KW "PRIVATE")) (KW "UNIVERSAL")) with false by (vm_compute; reflexivity).
+    replace (eq_text_ic (T (KW "PRIVATE")) (KW "APPLICATION")) with false by (vm_compute; reflexivity).
+    replace (eq_text_ic (T (KW "PRIVATE")) (KW "PRIVATE")) with true by (vm_compute; reflexivity).
+    cbn [next_or_err pbind]. unfold parse_tag_number, T. cbn [tok_text]. rewrite H. reflexivity.
+Qed.
+
+(* [ tag ] word  in front of any continuation: next_with_opt_tag returns the word, the tag and the rest *)
+Theorem next_with_opt_tag_print : forall t num w rest,
+  (forall tg, t = Some tg -> parse_u64 num = Some (tag_number tg)) ->
+  next_with_opt_tag (print_opt_tag t num ++ T w :: rest) = POk (T w, t, rest).
+Proof.
+  intros t num w rest H. destruct t as [tg|].
+  - cbn [print_opt_tag app]. unfold next_with_opt_tag. cbn [next_or_err pbind].
+    replace (eq_separator (P C_LBRACKET) C_LBRACKET) with true by (vm_compute; reflexivity).
+    rewrite <- app_assoc. rewrite read_tag_print by (apply H; reflexivity).
+    cbn [pbind app]. unfold next_sep_or_err, next_if_sep.
+    replace (eq_separator (P C_RBRACKET) C_RBRACKET) with true by (vm_compute; reflexivity).
+    cbn [pbind next_or_err]. reflexivity.
+  - cbn [print_opt_tag app]. unfold next_with_opt_tag. cbn [next_or_err pbind].
+    unfold T at 1. cbn [eq_separator]. reflexivity.
+Qed.
